@@ -405,6 +405,16 @@ impl RaftStorage<ClientRequest, ClientResponse> for FileStore {
         snapshot: Box<Self::Snapshot>,
     ) -> anyhow::Result<()> {
         let snapshot_id: u64 = id.parse()?;
+        //镜像内容到最后一个分片写完的位置为止。接收文件可能是复用的:上一次未完成的传输(如换主后新leader从头重传)
+        //写入过更长的内容,不截断的话旧内容会留在新镜像之后,被当作镜像记录加载(已删除的数据重新出现)
+        let mut snapshot = snapshot;
+        {
+            use tokio::io::AsyncSeekExt;
+            let end = snapshot.as_mut().stream_position().await?;
+            if snapshot.metadata().await?.len() > end {
+                snapshot.set_len(end).await?;
+            }
+        }
         //最后一个分片的响应丢失时,leader会重发该分片;此时镜像已安装完成,重发的分片对应一个新建的空文件,需忽略
         let check_file = Box::new(snapshot.try_clone().await?);
         if SnapshotReader::init_by_file(check_file).await.is_err() {
